@@ -21,18 +21,32 @@ _CURRENT: Optional["Engine"] = None
 # one watchdog thread per process: z3 does not always honour its own timeout, so the context is
 # interrupted once a query has overrun its budget
 _WATCH = {"deadline": None, "ctx": None, "thread": None}
+_WATCH_LOCK = __import__("threading").Lock()
 
 
 def _watchdog():
     while True:
         time.sleep(0.5)
-        d = _WATCH["deadline"]
-        if d is not None and time.time() > d:
-            try:
-                _WATCH["ctx"].interrupt()
-            except Exception:
-                pass
-            _WATCH["deadline"] = time.time() + 5.0
+        with _WATCH_LOCK:               # an interrupt is never issued after _disarm() has returned
+            d = _WATCH["deadline"]
+            if d is not None and time.time() > d:
+                try:
+                    _WATCH["ctx"].interrupt()
+                except Exception:
+                    pass
+                _WATCH["deadline"] = time.time() + 5.0
+
+
+def _retry_canceled(fn, *args):
+    """A watchdog interrupt that lands just as a query returns can leave z3's cancel flag set for the next API call
+    ('push canceled'); such a call did nothing and is simply repeated."""
+    for attempt in range(6):
+        try:
+            return fn(*args)
+        except z3.Z3Exception as e:
+            if "cancel" not in str(e) or attempt == 5:
+                raise
+            time.sleep(0.05)
 
 
 def _arm(ctx, seconds: float):
@@ -46,7 +60,8 @@ def _arm(ctx, seconds: float):
 
 
 def _disarm():
-    _WATCH["deadline"] = None
+    with _WATCH_LOCK:
+        _WATCH["deadline"] = None
 
 
 def current() -> "Engine":
@@ -200,9 +215,9 @@ class Engine:
         t = self.fresh_real(name)
         return SVal(t, npy=npy, cx=cpoly.var(str(t)))
 
-    def boolean(self, name: str):
+    def boolean(self, name: str, npy: bool = False):
         from .values import SBool
-        return SBool(self.fresh_bool(name))
+        return SBool(self.fresh_bool(name), npy=npy)
 
     def integer(self, name: str, lo: Optional[int] = None, hi: Optional[int] = None):
         from .values import SInt
@@ -379,7 +394,7 @@ class Engine:
 
     def _add(self, term):
         if self.mode != "fresh":
-            self.solver.add(term)
+            _retry_canceled(self.solver.add, term)
         self.pc.append(term)
         self._remember(term, True)
         if _ast_size(term, 120) < 120:
@@ -682,7 +697,7 @@ class Engine:
         self.scratch = {}
         self.known = {}
         self.div_zero_policy = "fork"
-        self.solver.push()
+        _retry_canceled(self.solver.push)
         self.pc = []
         self.small = []
         prev = _CURRENT
@@ -709,7 +724,7 @@ class Engine:
                                              "%s: %s\n%s" % (type(e).__name__, e, tb[-1500:])))
         finally:
             _CURRENT = prev
-            self.solver.pop()
+            _retry_canceled(self.solver.pop)
         self.stats.paths += 1
         setattr(self.stats, "paths_" + outcome, getattr(self.stats, "paths_" + outcome) + 1)
         if len(self.samples) < self.max_samples and outcome == "ok":
